@@ -714,3 +714,12 @@ LAWS = [
     Law("special_quadrics", lambda tier: deg_case(tier), run_deg, lambda c: True, lambda c: [c["what"]] + (["centre-far-from-origin"] if c["what"] in ("circle", "sphere") and c.get("far", 1) > 1 else []), {"quick": 1200, "thorough": 20000},
         "line pairs / plane pairs / cones / cylinders / circles / spheres intersected with secants through known points and tangents", shard=200),
 ]
+
+
+# ------------------------------------------------------------------------------------------- equivalent ways of asking
+from .. import forms as _forms  # noqa: E402
+
+LAWS.append(
+    Law("call_forms", lambda tier: _forms.call_forms_strategy("C14")(tier), _forms.run_call_forms("C14"), lambda c: True, lambda c: [c["entry"], f"d{c['d']}"], {"quick": 500, "thorough": 6000},
+        "the same question asked in several ways (positional / keyword arguments, method / function / operator form, symmetric argument orders) on the objects of the shared pool: same answer", shard=250)
+)
